@@ -1,4 +1,4 @@
-(* C15: SCPI_DoubleToStr / SCPI_FloatToStr stay inside a non-empty buffer; with an empty one they read what they did not write *)
+(* C15: SCPI_DoubleToStr / SCPI_FloatToStr stay inside the caller's buffer for every length *)
 From Coq Require Import Bool List ZArith Lia.
 From M Require Import BufModel.
 Import ListNotations.
@@ -11,9 +11,18 @@ Theorem fp_to_str_bounded text len : 0 < len ->
 Proof.
   intro H. unfold fp_to_str. destruct (Z.eqb_spec len 0); [lia|]. repeat split. rewrite firstn_length. lia.
 Qed.
-(* observation 13 *)
-Theorem fp_to_str_len0_refuted text : let '(_, _, _, reads_unwritten) := fp_to_str text 0 in reads_unwritten = true.
+(* observation 13, fixed: an empty buffer is neither written nor read and the result is 0 *)
+Theorem fp_to_str_len0 text : fp_to_str text 0 = ([], false, 0, false).
 Proof. reflexivity. Qed.
+(* every length: never more than len bytes, NUL-terminated whenever a byte is available, no read of unwritten memory *)
+Theorem fp_to_str_all text len : 0 <= len ->
+  let '(s, nul, r, reads_unwritten) := fp_to_str text len in
+  Z.of_nat (length s) + (if nul then 1 else 0) <= len /\ (nul = true <-> 0 < len) /\ r = Z.of_nat (length s) /\ reads_unwritten = false.
+Proof.
+  intro H. unfold fp_to_str. destruct (Z.eqb_spec len 0) as [->|Hn].
+  - cbn. repeat split; try lia; discriminate.
+  - repeat split; try lia. rewrite firstn_length. lia.
+Qed.
 Corollary double_to_str_bounded bits len : 0 < len ->
   let '(s, nul, r, bad) := double_to_str bits len in Z.of_nat (length s) + 1 <= len /\ nul = true /\ r = Z.of_nat (length s) /\ bad = false.
 Proof. intro H. unfold double_to_str. pose proof (fp_to_str_bounded (GFmt.fmt_double 15 bits) len H) as P. destruct (fp_to_str _ len) as [[[s nul] r] bad]. tauto. Qed.
